@@ -27,3 +27,21 @@ Theorem searches_meet_precondition : forall z h t cs, table_sorted z = true ->
   next_transition z t <> Err Precond /\ prev_transition z t <> Err Precond.
 Proof. exact searches_meet_precondition_lemma. Qed.
 Print Assumptions searches_meet_precondition.
+
+From CCTZ Require Import SourceZone SourceZoneProofs SourceZoneHints.
+(* the same at the level of the SOURCE-DERIVED queries (SourceZone.v, regenerated from clang's AST of the current
+   time_zone_info.cc on every run): whatever size_t value the hint cell holds - left by any earlier call, or stored by
+   another thread - the BreakTime / MakeTime the source contains now return the answer the model gives from any other hint *)
+Theorem src_hint_irrelevant_break : forall z h1 h2 t al h1' fuel,
+  table_sorted z = true -> size_t (vec_size (z_trans z)) -> size_t h2 -> (2 <= fuel)%nat ->
+  break_time z h1 t = OK (al, h1') ->
+  exists h2', sz_BreakTime fuel z h2 t = OK (al, h2').
+Proof. exact src_hint_irrelevant_break_lemma. Qed.
+Print Assumptions src_hint_irrelevant_break.
+Theorem src_hint_irrelevant_make : forall z h1 h2 cs cl h1' fuel,
+  table_sorted z = true -> size_t (vec_size (z_trans z)) -> size_t h2 ->
+  valid_fields cs = true -> int64 (z_last_year z - 400) -> (3 <= fuel)%nat ->
+  make_time z h1 cs = OK (cl, h1') ->
+  exists h2', sz_MakeTime fuel z h2 cs = OK (cl, h2').
+Proof. exact src_hint_irrelevant_make_lemma. Qed.
+Print Assumptions src_hint_irrelevant_make.
